@@ -692,6 +692,14 @@ private:
 		 });
   }
 
+  // The Boolean variable x has been redefined: forget the facts "if
+  // b is true then x is true" recorded for its previous definition.
+  void forget_bool_uses(const variable_t &x) {
+    transform_if(m_bool_to_bools,
+		 [&x](const bool_set_t &s) { return s.at(x);},
+		 [&x](bool_set_t &s) { s -= x;});
+  }
+
   void mark_as_unchanged(const variable_t &v) {
     if (!m_unchanged_vars.at(v)) {
       forget_constraints_on(m_bool_to_lincsts, v);
@@ -818,7 +826,8 @@ private:
       m_bool_to_lincsts -= lhs;
       m_bool_to_refcsts -= lhs;
       m_bool_to_bools -= lhs;
-    } 
+    }
+    forget_bool_uses(lhs);
   }
 
 
@@ -928,6 +937,7 @@ private:
       m_bool_to_lincsts.set(x, lincst_set_t(cst));
     }
     m_bool_to_bools -= x;
+    forget_bool_uses(x);
   }
 
   /**
@@ -968,7 +978,7 @@ private:
       m_bool_to_refcsts.set(x, refcst_set_t(cst));
     }
     m_bool_to_bools -= x;
-
+    forget_bool_uses(x);
   }
 
   
@@ -1396,6 +1406,7 @@ public:
       // TODO: we don't handle negative booleans in m_bool_to_bools.
       m_bool_to_bools -= x;
     }
+    forget_bool_uses(x);
 
     CRAB_LOG("flat-boolean",
              crab::outs() << "\tunchanged vars=" << m_unchanged_vars << "\n"
@@ -1448,6 +1459,7 @@ public:
       // TODO: we don't handle or/xor
       m_bool_to_bools -= x;
     }
+    forget_bool_uses(x);
   }
 
   void assume_bool(const variable_t &x, bool is_negated) override {
@@ -1501,6 +1513,7 @@ public:
 	  // TODO: we don't handle negative booleans in
 	  // m_bool_to_bools so we don't add not(cond)
 	}
+	forget_bool_uses(lhs);
       }
     }
 
@@ -1520,6 +1533,7 @@ public:
     m_bool_to_lincsts -= lhs;
     m_bool_to_refcsts -= lhs;
     m_bool_to_bools -= lhs;
+    forget_bool_uses(lhs);
   }
 
   void backward_assign_bool_ref_cst(const variable_t &lhs,
@@ -1537,6 +1551,7 @@ public:
     m_bool_to_lincsts -= lhs;
     m_bool_to_refcsts -= lhs;
     m_bool_to_bools -= lhs;
+    forget_bool_uses(lhs);
   }
 
   void backward_apply_binary_bool(bool_operation_t op, const variable_t &x,
@@ -1547,6 +1562,7 @@ public:
     m_bool_to_lincsts -= x;
     m_bool_to_refcsts -= x;
     m_bool_to_bools -= x;
+    forget_bool_uses(x);
   }
 
   // cast_operators_api
@@ -1585,6 +1601,7 @@ public:
       m_bool_to_lincsts -= dst;
       m_bool_to_refcsts -= dst;
       m_bool_to_bools -= dst;
+      forget_bool_uses(dst);
     } else if ((op == OP_ZEXT || op == OP_SEXT) &&
                (get_bitwidth(src) == 1 && get_bitwidth(dst) > 1)) {
       // -- bool to int:
